@@ -466,9 +466,14 @@ static int32_t wr_data_inner(struct jls_core_fsr_s * self, const void * data, ui
         }
         if (self->shift_amount) {
             uint8_t mask = (1 << self->shift_amount) - 1;
-            uint32_t bits = length * sample_size_bits + self->shift_amount;
+            // bits to store: the new samples plus the already counted bits of the partial byte at dst_u8.
+            // shift_buffer always holds shift_amount valid bits (counted ones on entry, else read ahead).
+            uint32_t bits = length * sample_size_bits + ((b->header.entry_count * sample_size_bits) % 8);
             while (bits) {
-                uint16_t v = (self->shift_buffer & mask) | (((uint16_t) (*src_u8++)) << self->shift_amount);
+                uint16_t v = (self->shift_buffer & mask);
+                if (bits > self->shift_amount) {  // else all remaining bits are already buffered: no source byte left to read
+                    v |= (((uint16_t) (*src_u8++)) << self->shift_amount);
+                }
                 if (bits >= 8) {
                     *dst_u8++ = (uint8_t) v;
                     bits -= 8;
@@ -496,6 +501,11 @@ static int32_t wr_data_inner(struct jls_core_fsr_s * self, const void * data, ui
         }
     }
     self->shift_amount = shift_amount_next;
+    if (self->shift_amount) {
+        // keep the pending partial byte in the sample buffer so that it is stored when this was the last write
+        dst_u8 = ((uint8_t *) &b->data[0]) + (b->header.entry_count * sample_size_bits) / 8;
+        *dst_u8 = self->shift_buffer & (uint8_t) ((1 << self->shift_amount) - 1);
+    }
     return 0;
 }
 
